@@ -135,7 +135,8 @@ def rule_edge(ctx: Ctx):
         label = next((k.value for k in v.keywords if k.arg == "label"), None)
         lt = xshow(label, evs) if label is not None else ""
         rep.check(f"{tr}.event" in lt, "C18.edge", fn.loc(), "the edge label names the transition's events", fn.key, f"label={lt}")
-        conds = [e for e in evs if e.kind == "comp" and f"{tr}.cond" in show(e.term)]
+        # the guard specs are walked by a comprehension, or handed whole to map()/join()
+        conds = [e for e in evs if e.kind in ("comp", "call") and e.term is not None and f"{tr}.cond" in xshow(e.term, evs)]
         facts = {show(b.term): b.x["taken"] for b in p.of("branch")}
         rep.check(bool(conds) and "cond" in lt or (not any(facts.values()) and bool(conds)), "C18.edge", fn.loc(),
                   "the label lists the transition's guard specs when there are any", fn.key, f"label={lt}")
